@@ -385,7 +385,7 @@ func (r *Realm) parseLines(name string, lines []string) (err error) {
 		case "default_domain":
 			r.DefaultDomain = v
 		case "kdc":
-			if !strings.Contains(v, ":") {
+			if !hasPort(strings.TrimSuffix(v, `*`)) {
 				// No port number specified default to 88
 				if strings.HasSuffix(v, `*`) {
 					v = strings.TrimSpace(strings.TrimSuffix(v, `*`)) + ":88*"
@@ -403,11 +403,23 @@ func (r *Realm) parseLines(name string, lines []string) (err error) {
 	//default for Kpasswd_server = admin_server:464
 	if len(r.KPasswdServer) < 1 {
 		for _, a := range r.AdminServer {
-			s := strings.Split(a, ":")
-			r.KPasswdServer = append(r.KPasswdServer, s[0]+":464")
+			h := a
+			if hasPort(a) {
+				h = a[:strings.LastIndex(a, ":")]
+			}
+			r.KPasswdServer = append(r.KPasswdServer, h+":464")
 		}
 	}
 	return
+}
+
+// hasPort reports whether a server address carries a port number. An address that contains colons
+// itself (an IPv6 address) is enclosed in square brackets and its port follows the closing bracket.
+func hasPort(addr string) bool {
+	if strings.HasPrefix(addr, "[") {
+		return strings.Contains(addr, "]:")
+	}
+	return strings.Contains(addr, ":")
 }
 
 // Parse the lines of the [realms] section of the configuration into an slice of Realm structs.
